@@ -183,7 +183,11 @@ def finish(mod, modname, pid, tier, seed, repo, t0, results, skipped, heavy, n_j
             log(f"VIOLATION property={pid} replay={path}")
             status = EXIT_VIOLATION if status != EXIT_HARNESS else status
         sigs_reported = {s for s, *_ in reported} | {s for s, *_ in known_hit}
-        nr = [x for x in not_reproduced if x[0] not in sigs_reported]
+        soft = set(getattr(mod, "SOFT_SIGNATURES", ()))
+        for sig, path, outp in not_reproduced:
+            if sig in soft and sig not in sigs_reported:
+                log(f"[{pid}] inconclusive (soft): counterexample for {sig} did not reproduce / violates an input assumption checked only concretely; not counted")
+        nr = [x for x in not_reproduced if x[0] not in sigs_reported and x[0] not in soft]
         if nr:
             for sig, path, outp in nr[:5]:
                 log(f"[{pid}] INCONCLUSIVE: solver counterexample for {sig} did not reproduce on the float64 code "
